@@ -653,8 +653,28 @@ func init() {
 	stubs["time.ParseInLocation"] = func(e *Engine, st *State, fr *Frame, fn *ssa.Function, args []Value, pos token.Pos) []exit {
 		layout := concreteString(args[0], "time layout")
 		loc, ok := args[2].(LocV)
-		if !ok || loc.Kind == 0 {
-			panic(unsupported("ParseInLocation with nil/unknown location"))
+		isNil := ok && loc.Kind == 0
+		if p, isPtr := args[2].(PtrV); isPtr && p.IsNil() {
+			isNil = true
+		}
+		if isNil {
+			// a nil location: text that does not parse is an error as usual; text that parses reaches
+			// Date(..., nil), which panics
+			var out []exit
+			for _, r := range e.timeParse(st, layout, args[1].(StrV), 2, pos) {
+				if tv, isT := r.val.(TupleV); r.kind == exitReturn && isT && len(tv) == 2 {
+					if ev, isI := tv[1].(IfaceV); isI && ev.T == nil {
+						e.reportPanic(r.st, e.tc.True, "time: missing Location in call to Date", pos)
+						out = append(out, exit{st: r.st, kind: exitPanic, pmsg: "time: missing Location in call to Date"})
+						continue
+					}
+				}
+				out = append(out, r)
+			}
+			return out
+		}
+		if !ok {
+			panic(unsupported("ParseInLocation with an unknown location"))
 		}
 		return e.timeParse(st, layout, args[1].(StrV), loc.Kind, pos)
 	}
@@ -857,9 +877,7 @@ func (e *Engine) relToCivil(st *State, out TimeV, civ *Term, tag string) TimeV {
 	zv := e.zv
 	lt := func(k int64) *Term { return c.BVSlt(civ, e.z24(k)) }
 	okR := c.And(c.Not(lt(-2*86400)), lt(3*86400))
-	if e.feasible(st, c.Not(okR), "civil day range") {
-		panic(unsupported("time arithmetic: result more than two days from the anchor day"))
-	}
+	e.requireOrAssume(st, okR, "civil day range (within two days of the anchor day)", "time arithmetic: result more than two days from the anchor day")
 	st.assume(okR)
 	dayOff := c.Ite(lt(-86400), e.z24(-2*86400), c.Ite(lt(0), e.z24(-86400), c.Ite(lt(86400), e.z24(0), c.Ite(lt(172800), e.z24(86400), e.z24(2*86400)))))
 	sod := c.BVSub(civ, dayOff)
